@@ -355,6 +355,22 @@ func c04Case(w *core.Worker, i int) {
 			c04SetOp(t, keyCols, strict, op, v, func(sig, what string) { viol("setop:"+op+":"+sig, q, what) })
 		}
 	}
+	// 4b. an empty operand: EXCEPT / UNION still return one row per class of the other operand, INTERSECT nothing
+	for _, op := range []string{"EXCEPT", "UNION"} {
+		q = fmt.Sprintf("SELECT %s FROM t %s SELECT %s FROM t WHERE 1 = 0", keyList, op, keyList)
+		if v := run(q); v != nil {
+			c04Distinct(t, keyCols, strict, v, func(sig, what string) { viol("setop-empty-operand:"+op+":"+sig, q, what) })
+		}
+	}
+	q = fmt.Sprintf("SELECT %s FROM t WHERE 1 = 0 UNION SELECT %s FROM t", keyList, keyList)
+	if v := run(q); v != nil {
+		c04Distinct(t, keyCols, strict, v, func(sig, what string) { viol("setop-empty-operand:UNION-left:"+sig, q, what) })
+	}
+	for _, q := range []string{fmt.Sprintf("SELECT %s FROM t INTERSECT SELECT %s FROM t WHERE 1 = 0", keyList, keyList), fmt.Sprintf("SELECT %s FROM t WHERE 1 = 0 EXCEPT SELECT %s FROM t", keyList, keyList)} {
+		if v := run(q); v != nil && len(v.Rows) != 0 {
+			viol("setop-empty-operand:rows", q, fmt.Sprintf("%d rows returned, none expected", len(v.Rows)))
+		}
+	}
 	// 5. DISTINCT inside aggregates: the values an aggregate keeps are one per class of its (non-NULL) arguments
 	for j := 0; j < nk; j++ {
 		kn := names[j]
